@@ -148,6 +148,12 @@ func (p *PC) lits2len() int {
 }
 
 func (w *Worker) doAssert(s *State, label string, cond *Term) {
+	// a check evaluates the assertions of its own property only: a failing assertion of another
+	// property must not end the path before this property's assertions are reached
+	if len(w.cfg.AssertPrefixes) > 0 && !matchesPrefix(label, w.cfg.AssertPrefixes) {
+		s.pending = nil
+		return
+	}
 	pend := s.pending
 	s.pending = nil
 	if len(s.forced) > 0 { // replaying a shipped trail: this assertion was decided by the exporting worker
